@@ -294,7 +294,7 @@ func c03Scenarios() []*c03Scn {
 		{"caps /32=1,/56=1", nil, []c03SubnetCap{{32, 1}}, []c03SubnetCap{{56, 1}}, 0, 5, 6, netWide},
 		{"caps /32=2,/24=2,/56=2", nil, []c03SubnetCap{{32, 2}, {24, 2}}, []c03SubnetCap{{56, 2}}, 0, 6, 7, netWide},
 		{"caps /24=1,alnet=2", nil, []c03SubnetCap{{24, 1}}, []c03SubnetCap{{56, 2}}, 2, 5, 6, netWide},
-		{"caps /32=1 with system=C0,alSystem=C2", []c03Set{{"system", pC0}, {"alSystem", pC2}}, []c03SubnetCap{{32, 1}}, []c03SubnetCap{{56, 1}}, 0, 6, 7, netA},
+		{"caps /32=1 with system=C0,alSystem=unl", []c03Set{{"system", pC0}}, []c03SubnetCap{{32, 1}}, []c03SubnetCap{{56, 1}}, 0, 6, 7, netA},
 		{"caps /32=1 with system=C1,alSystem=C2", []c03Set{{"system", pC1}, {"alSystem", pC2}}, []c03SubnetCap{{32, 1}}, []c03SubnetCap{{56, 1}}, 0, 6, 7, netA},
 		{"caps /32=1,alnet=1 with system=C1,alSystem=C2", []c03Set{{"system", pC1}, {"alSystem", pC2}}, []c03SubnetCap{{32, 1}}, []c03SubnetCap{{56, 1}}, 1, 6, 7, netA},
 		{"caps /32=2,/24=2 with system=C0,alSystem=unl", []c03Set{{"system", pC0}}, []c03SubnetCap{{32, 2}, {24, 2}}, []c03SubnetCap{{56, 2}}, 0, 5, 7, netA},
